@@ -226,7 +226,7 @@ def r5(ctx: Ctx) -> None:
         for n in region:
             rs = set(ctx.eff.raises_at(f, n))
             if only is not None:
-                if only not in rs and "Exception" not in rs:
+                if only not in rs:
                     continue
                 rs = {only}
             rs.discard("AmbiguousCommitError")
